@@ -122,6 +122,16 @@ func vfClockHook(f func()) {}
 // vfHavocLoads: under the executor the next n atomic loads of *p return an arbitrary value each (no native effect).
 func vfHavocLoads(p *uint32, n int) {}
 
+// vfBlockHook: under the executor f is called when the running thread is about to block on an empty channel; it may
+// let recorded goroutines run (vfRunSpawnedToBlock) and reports whether it did; the receive is then retried.
+func vfBlockHook(f func() bool) {}
+
+// vfRunSpawnedToBlock runs recorded goroutine i until it returns (false) or blocks (true).
+func vfRunSpawnedToBlock(i int) bool { return false }
+
+// vfRunToBlock runs f as another goroutine would: until it returns (false) or blocks on a channel (true).
+func vfRunToBlock(f func()) bool { f(); return false }
+
 // vfLockHook: under the executor f runs once right before the next Lock of m (no native effect).
 func vfLockHook(m *sync.Mutex, f func()) {}
 
